@@ -10,6 +10,7 @@ mod las;
 mod scan;
 mod fdl;
 mod gsd;
+mod dp;
 mod util;
 
 use std::io::{BufRead, Write};
@@ -27,6 +28,7 @@ const DOMAINS: &[(&str, GenFn, RunFn)] = &[
     ("scan", scan::gen, scan::run_case),
     ("fdl", fdl::gen, fdl::run_case),
     ("gsd", gsd::gen, gsd::run_case),
+    ("dp", dp::gen, dp::run_case),
 ];
 
 fn main() {
